@@ -365,10 +365,18 @@ def _r1(ctx):
         ctx.violated(fm, fm.node, "range/mean histogram: meanstress is %r, expected mean" % m, text="rm mean")
     # range/mean -> from/to conversion of the collective
     v = prog.lookup_method(lc, "_validate")
+    # roles from the frame that is built: {'from': <local>, 'to': <local>}
+    d0 = [n for n in ast.walk(v.node) if isinstance(n, ast.Dict) and {const_value(k) for k in n.keys} == {"from", "to"}]
+    if len(d0) != 1 or not all(isinstance(x, ast.Name) for x in d0[0].values):
+        raise AnalysisError("LoadCollective._validate: range/mean conversion not found")
+    role = {const_value(k): x.id for k, x in zip(d0[0].keys, d0[0].values)}
     defs = {}
     for s in walk_function(v.node):
-        if isinstance(s, ast.Assign) and isinstance(s.targets[0], ast.Name) and s.targets[0].id in ("fr", "to"):
-            defs[s.targets[0].id] = s
+        if isinstance(s, ast.Assign) and isinstance(s.targets[0], ast.Name):
+            if s.targets[0].id == role["from"]:
+                defs["fr"] = s
+            elif s.targets[0].id == role["to"]:
+                defs["to"] = s
     if set(defs) != {"fr", "to"}:
         raise AnalysisError("LoadCollective._validate: range/mean conversion not found")
 
@@ -404,9 +412,13 @@ def _r1(ctx):
                      % (a, m))
     # the frame built from it uses fr/to under the right keys and keeps the cycles
     d = [n for n in ast.walk(v.node) if isinstance(n, ast.Dict)]
-    ok = d and {const_value(k): norm_text(x) for k, x in zip(d[0].keys, d[0].values)} == {"from": "fr", "to": "to"}
+    ok = bool(d0)
+    d = d0
+    cyc = [s.targets[0].id for s in walk_function(v.node) if isinstance(s, ast.Assign) and isinstance(s.targets[0], ast.Name) and
+           isinstance(s.value, ast.Call) and isinstance(s.value.func, ast.Attribute) and s.value.func.attr == "get" and
+           s.value.args and const_value(s.value.args[0]) == "cycles"]
     keep = [s for s in walk_function(v.node) if isinstance(s, ast.Assign) and isinstance(s.targets[0], ast.Subscript)
-            and const_value(s.targets[0].slice) == "cycles" and norm_text(s.value) == "cycles"]
+            and const_value(s.targets[0].slice) == "cycles" and isinstance(s.value, ast.Name) and s.value.id in cyc]
     if ok and keep:
         ctx.holds(v, d[0], "converted frame: columns from/to, cycle counts carried over")
     else:
